@@ -318,11 +318,83 @@ func ruleReattach(c *Ctx) {
 				}
 				return true
 			})
+			// a kept config is harmless when what is returned is a copy of it: no
+			// return hands out the field, a pointer bound to it, or its address
+			if kept != nil {
+				isKept := func(e ast.Expr) bool {
+					fv := SelField(rinfo, ast.Unparen(e))
+					if fv == nil || !strings.HasPrefix(p.FieldName(fv), "Client.") {
+						return false
+					}
+					t := fv.Type()
+					if pt, isP := t.Underlying().(*types.Pointer); isP {
+						t = pt.Elem()
+					}
+					return strings.HasSuffix(t.String(), "go-plugin.ReattachConfig")
+				}
+				handsOut := false
+				nRet := 0
+				walkNoLit(rc.Body, func(x ast.Node) bool {
+					rs, ok := x.(*ast.ReturnStmt)
+					if !ok || len(rs.Results) != 1 {
+						return true
+					}
+					nRet++
+					r := ast.Unparen(rs.Results[0])
+					if u, isU := r.(*ast.UnaryExpr); isU && u.Op == token.AND {
+						// &local: the local must be a struct value of its own
+						r = ast.Unparen(u.X)
+						if isKept(r) {
+							handsOut = true
+						}
+						if v, isV := identObj(rinfo, r).(*types.Var); isV && !v.IsField() {
+							if _, isStruct := v.Type().Underlying().(*types.Struct); !isStruct {
+								handsOut = true
+							}
+						} else if _, isLit := r.(*ast.CompositeLit); !isLit {
+							handsOut = true
+						}
+						return true
+					}
+					if isKept(r) {
+						handsOut = true
+						return true
+					}
+					if v, isV := identObj(rinfo, r).(*types.Var); isV && !v.IsField() {
+						// a pointer local: every definition must be a fresh literal or
+						// the address of a struct local, never the kept field
+						ast.Inspect(rc.Body, func(y ast.Node) bool {
+							as, isAs := y.(*ast.AssignStmt)
+							if !isAs || len(as.Lhs) != len(as.Rhs) {
+								return true
+							}
+							for i, l := range as.Lhs {
+								if identObj(rinfo, l) != types.Object(v) {
+									continue
+								}
+								d := ast.Unparen(as.Rhs[i])
+								if isKept(d) {
+									handsOut = true
+								}
+								if u, isU := d.(*ast.UnaryExpr); isU && u.Op == token.AND && isKept(u.X) {
+									handsOut = true
+								}
+							}
+							return true
+						})
+						return true
+					}
+					return true
+				})
+				if !handsOut && nRet > 0 {
+					kept = nil
+				}
+			}
 			if kept != nil {
 				c.R.Violate("R-REATTACH", p.Pos(kept), rc.Name, "every call returns its own ReattachConfig",
 					"ReattachConfig() keeps the value it hands out in the Client and returns it again: what one caller sets on it (Test, Pid, ReattachFunc) is what the next caller reattaches with", nil)
 			} else {
-				c.R.Hold("R-REATTACH", p.Pos(rc.Node()), rc.Name, "every call returns its own ReattachConfig", "no Client field of type ReattachConfig is read or written", true)
+				c.R.Hold("R-REATTACH", p.Pos(rc.Node()), rc.Name, "every call returns its own ReattachConfig", "no Client field of type ReattachConfig is handed out (none exists, or every return gives a literal or the address of a struct copy)", true)
 			}
 		}
 		if okLit && okPid && okAsIs {
@@ -437,20 +509,43 @@ func ruleSentinelReattach(c *Ctx) {
 				continue
 			}
 			n++
-			seen := g.Reach([]*Node{e.To}, func(x *Node) bool {
+			seen := p.FeasibleReach(lit, []*Node{e.To}, func(x *Node) bool {
 				rs, isR := x.Ast.(*ast.ReturnStmt)
 				return isR && len(rs.Results) == 2 && identObj(info, rs.Results[1]) == sent
 			}, nil)
-			if _, miss := seen[g.Exit]; miss {
+			if seen[g.Exit] {
 				ok = false
 			}
 		}
 	}
-	// the probe dials the address it was given
+	// the probe dials the address it was given, on every way to a successful
+	// attach: no feasible path from the entry to a `return ..., nil` avoids
+	// the net.Dial (a socket file that exists may be left over from a plugin
+	// that died)
 	dials := false
 	for _, call := range lit.Calls() {
 		if p.CalleeName(lit, call) == "net.Dial" {
 			dials = true
+		}
+	}
+	if dials {
+		isDial := func(x *Node) bool {
+			if x.Ast == nil {
+				return false
+			}
+			for _, call := range callsIn(x.Ast) {
+				if p.CalleeName(lit, call) == "net.Dial" {
+					return true
+				}
+			}
+			return false
+		}
+		noDial := p.FeasibleReach(lit, []*Node{g.Entry}, isDial, nil)
+		for m := range noDial {
+			if rs, isR := m.Ast.(*ast.ReturnStmt); isR && len(rs.Results) == 2 && isNilIdent(info, rs.Results[1]) {
+				dials = false
+				c.R.Violate("R-SENT", p.Pos(rs), lit.Name, "a successful attach has connected to the address", "the reattach function can report success without having connected to the plugin's address on this path: a stale socket file (or any check short of a connection) makes a dead plugin look alive, and the client attaches to nothing instead of failing with ErrProcessNotFound", nil)
+			}
 		}
 	}
 	if ok && n >= 2 && dials {
@@ -673,6 +768,18 @@ func ruleVersionNegotiation(c *Ctx) {
 			return false
 		}
 		if inner == nil {
+			// looked-up form: offered[i] == served (e.g. after a binary search)
+			if at.Kind == "cmp" && at.Op == token.EQL {
+				for _, pr := range [][2]ast.Expr{{at.X, at.Y}, {at.Y, at.X}} {
+					if ix, ok := ast.Unparen(pr[0]).(*ast.IndexExpr); ok && isVer(identObj(info, pr[1])) {
+						if lv, ok := identObj(info, ix.X).(*types.Var); ok && !lv.IsField() && p.completeSearch(f, g, ix, lv, isVer) {
+							containsList = lv
+							return true
+						}
+					}
+				}
+				return false
+			}
 			if at.Kind != "call" || !at.True {
 				return false
 			}
@@ -693,7 +800,7 @@ func ruleVersionNegotiation(c *Ctx) {
 	if okMatch {
 		c.R.Hold("R-NEG", p.Pos(matchRet), f.Name, "match is equality of offered and served version", "the in-loop return is reachable only through `offered == served`", true)
 	} else {
-		c.R.Violate("R-NEG", p.Pos(matchRet), f.Name, "match is equality of offered and served version", "a version can be announced without being equal to one the host offered", nil)
+		c.R.Violate("R-NEG", p.Pos(matchRet), f.Name, "match is equality of offered and served version", "a version can be announced without being equal to one the host offered, or the lookup is not a complete membership test (an indexed comparison is accepted only behind a binary search that assumes the order the offered list was sorted in)", nil)
 	}
 	// the host's list is the parsed PLUGIN_PROTOCOL_VERSIONS
 	var cl *types.Var
@@ -1819,4 +1926,138 @@ func assignedErrVar(info *types.Info, n ast.Node) *types.Var {
 		}
 	}
 	return nil
+}
+
+// completeSearch: list[i] == version is a complete membership test only when
+// i is the result of a binary search whose order assumption is the order the
+// list was sorted in: sort.SearchInts / slices.BinarySearch on an ascending
+// list, or sort.Search(len(list), func(j) bool { return list[j] <= version })
+// on a descending one (>= on an ascending one). The sort dominates the search
+// and the list is not redefined in between.
+func (p *Prog) completeSearch(f *Func, g *Graph, ix *ast.IndexExpr, list *types.Var, isVer func(types.Object) bool) bool {
+	info := f.Pkg.TypesInfo
+	iv, ok := identObj(info, ix.Index).(*types.Var)
+	if !ok || iv.IsField() {
+		return false
+	}
+	d := p.singleDef(f, iv)
+	if d == nil {
+		// i, found := slices.BinarySearch(list, v)
+		ast.Inspect(f.Body, func(x ast.Node) bool {
+			if as, ok := x.(*ast.AssignStmt); ok && len(as.Lhs) == 2 && len(as.Rhs) == 1 && identObj(info, as.Lhs[0]) == types.Object(iv) {
+				d = as.Rhs[0]
+			}
+			return true
+		})
+	}
+	call, ok := ast.Unparen(d).(*ast.CallExpr)
+	if d == nil || !ok {
+		return false
+	}
+	want := "" // order the search assumes
+	switch p.CalleeName(f, call) {
+	case "sort.SearchInts", "slices.BinarySearch":
+		if len(call.Args) == 2 && identObj(info, call.Args[0]) == types.Object(list) && isVer(identObj(info, call.Args[1])) {
+			want = "asc"
+		}
+	case "sort.Search":
+		if len(call.Args) != 2 {
+			return false
+		}
+		if lc, ok := ast.Unparen(call.Args[0]).(*ast.CallExpr); !ok || len(lc.Args) != 1 || identObj(info, lc.Args[0]) != types.Object(list) || types.ExprString(lc.Fun) != "len" {
+			return false
+		}
+		fl, ok := ast.Unparen(call.Args[1]).(*ast.FuncLit)
+		if !ok || len(fl.Body.List) != 1 || len(fl.Type.Params.List) != 1 || len(fl.Type.Params.List[0].Names) != 1 {
+			return false
+		}
+		jv := info.Defs[fl.Type.Params.List[0].Names[0]]
+		rs, ok := fl.Body.List[0].(*ast.ReturnStmt)
+		if !ok || len(rs.Results) != 1 {
+			return false
+		}
+		be, ok := ast.Unparen(rs.Results[0]).(*ast.BinaryExpr)
+		if !ok {
+			return false
+		}
+		op, l, r := be.Op, ast.Unparen(be.X), ast.Unparen(be.Y)
+		if _, isIx := l.(*ast.IndexExpr); !isIx {
+			// version OP list[j]  ==  list[j] OP' version
+			l, r = r, l
+			switch op {
+			case token.LEQ:
+				op = token.GEQ
+			case token.GEQ:
+				op = token.LEQ
+			default:
+				return false
+			}
+		}
+		lix, ok := l.(*ast.IndexExpr)
+		if !ok || identObj(info, lix.X) != types.Object(list) || identObj(info, lix.Index) != jv || !isVer(identObj(info, r)) {
+			return false
+		}
+		switch op {
+		case token.LEQ:
+			want = "desc"
+		case token.GEQ:
+			want = "asc"
+		}
+	}
+	if want == "" {
+		return false
+	}
+	searchN := g.NodeOf(call)
+	var sortN *Node
+	for _, sc := range f.Calls() {
+		have := ""
+		switch p.CalleeName(f, sc) {
+		case "sort.Ints", "slices.Sort":
+			if len(sc.Args) == 1 && identObj(info, sc.Args[0]) == types.Object(list) {
+				have = "asc"
+			}
+		case "sort.Sort":
+			if len(sc.Args) != 1 {
+				continue
+			}
+			arg, ok := ast.Unparen(sc.Args[0]).(*ast.CallExpr)
+			if !ok || len(arg.Args) != 1 {
+				continue
+			}
+			dir := "asc"
+			if p.CalleeName(f, arg) == "sort.Reverse" {
+				dir = "desc"
+				arg, ok = ast.Unparen(arg.Args[0]).(*ast.CallExpr)
+				if !ok || len(arg.Args) != 1 {
+					continue
+				}
+			}
+			if t := info.TypeOf(arg.Fun); t != nil && t.String() == "sort.IntSlice" && identObj(info, arg.Args[0]) == types.Object(list) {
+				have = dir
+			}
+		case "slices.Reverse", "sort.Slice", "sort.SliceStable", "slices.SortFunc", "slices.SortStableFunc":
+			if len(sc.Args) >= 1 && identObj(info, sc.Args[0]) == types.Object(list) {
+				return false // an order this rule does not evaluate
+			}
+		}
+		if have == "" {
+			continue
+		}
+		if have != want || sortN != nil {
+			return false
+		}
+		sortN = g.NodeOf(sc)
+	}
+	if sortN == nil || searchN == nil || !g.Dominates(sortN, searchN) {
+		return false
+	}
+	for m := range g.ReachAfter(sortN, func(x *Node) bool { return x == searchN }, nil) {
+		if m.Ast == nil || m == searchN {
+			continue
+		}
+		if defs, _ := nodeDefsUses(info, m.Ast); defs[list] != nil {
+			return false
+		}
+	}
+	return true
 }
